@@ -247,6 +247,22 @@ inline OptCase genOptCase(Rng &r, int order, int dim, int N, int combo, int flag
         oc.prog.usesClass[1] = true;
         oc.prog.usesTime = true;
     }
+    if (r.coin(0.3))
+    {
+        // a moving-obstacle style term that is active only inside a time window which opens and closes inside one segment
+        double tot = 0;
+        for (double t : oc.ref.T)
+            tot += t;
+        double a0 = r.uni(0.05, 0.8);
+        oc.prog.wn_w = r.uni(0.5, 5.0) / std::pow(0.1 * tot + 1e-3, 6);
+        oc.prog.wn_0 = oc.ref.t0 + a0 * tot;
+        oc.prog.wn_1 = oc.prog.wn_0 + r.uni(0.03, 0.2) * tot;
+        for (int j = 0; j < kMaxDim; ++j)
+            oc.prog.wn_c[j] = r.normal();
+        oc.prog.usesClass[0] = true;
+        oc.prog.usesTime = true;
+    }
+    oc.prog.conditionalWrites = r.coin(0.5);
     return oc;
 }
 
@@ -281,6 +297,31 @@ inline VectorXd genDecisionVector(Rng &r, const OptCase &oc, const OptRig &rig, 
         }
     }
     return x;
+}
+
+// The optimizer that is judged may itself be a copy: copy-constructed from the configured one, or another (possibly
+// already used) optimizer that was assigned from it.  Returns the name of the route.
+inline const char *routeViaCopy(Rng &r, OptRig &rig)
+{
+    int k = r.range(0, 9);
+    if (k < 6)
+        return "direct";
+    if (k < 8)
+    {
+        rig.opt = rig.opt->clone();
+        return "copy_constructed";
+    }
+    auto other = rig.env->makeOptimizer();
+    if (k == 9)
+    {
+        // the target has a life of its own before it is assigned to
+        other->setSteps(r.range(1, 30));
+        other->setRho(r.uni(0, 1));
+        (void)other->getDimension();
+    }
+    other->assignFrom(*rig.opt);
+    rig.opt = std::move(other);
+    return "assigned";
 }
 
 inline std::string dumpOptCase(const OptCase &oc, const VectorXd *x = nullptr)
